@@ -38,7 +38,7 @@ M("c01-drop-TGD2", ["C01", "C03"], ("project.py", '        yield b"TGD2", pack("
 M("c01-reader-syyy-into-x", ["C01", "C04"], ("readers/module.py", "(self.object.y,) = unpack(\"<i\", data)", "(self.object.x,) = unpack(\"<i\", data)"))
 M("c01-pend-only-nonempty", ["C01", "C03"], ("project.py", "            if pattern is not None:\n                yield from pattern.iff_chunks()\n            yield b\"PEND\", b\"\"",
   "            if pattern is not None:\n                yield from pattern.iff_chunks()\n                yield b\"PEND\", b\"\""))
-M("c01-mxof-unsigned-writer", ["C01", "C03"], ("readers/sunvox.py", '(self.object.modules_x_offset,) = unpack("<i", data)', '(self.object.modules_x_offset,) = unpack("<I", data)'))
+M("c01-mxof-unsigned-reader", ["C01", "C04"], ("readers/sunvox.py", '(self.object.modules_x_offset,) = unpack("<i", data)', '(self.object.modules_x_offset,) = unpack("<I", data)'))
 M("c01-cmid-reversed", ["C01", "C02", "C03"], ("project.py", "                            for name in controllers\n", "                            for name in reversed(controllers)\n"))
 M("c02-array-drops-last", ["C02", "C01"], ("chunks/array.py", "        length = len(value) // self.element_size\n", "        length = max(0, len(value) // self.element_size - 1)\n"))
 M("c02-synth-cmid-all-controllers", ["C02", "C03"], ("synth.py", "mod.controller_midi_maps[name].cmid_data for name, _ in controllers", "mod.controller_midi_maps[name].cmid_data for name in mod.controllers"))
@@ -121,8 +121,11 @@ M("c15-labels-at-7", ["C15", "C03"], ("modules/metamodule.py", "        for i, c
 M("c15-attach-n-plus-1", ["C15"], ("modules/metamodule.py", "        attached_values = [True] * ctl_count + [False] * (", "        attached_values = [True] * (ctl_count + 1) + [False] * ("))
 M("c15-mappings-not-reset", ["C15", "C17"], ("modules/metamodule.py", "        self.mappings = self.MappingArray()\n", "        self.mappings = self.MappingArray()\n        self.mappings.values = MetaModule._shared_map if hasattr(MetaModule, '_shared_map') else setattr(MetaModule, '_shared_map', self.mappings.values) or self.mappings.values\n"))
 M("c16-envelope-y-sign", ["C16"], ("modules/sampler.py", "                points.append((x, y + min_y))", "                points.append((x, y - min_y))"))
-M("c16-panning-bias-7f", ["C16", "C03"], ("modules/sampler.py", "        sample.panning = r.uint8() - 0x80", "        sample.panning = r.uint8() - 0x7F"))
-M("c16-sample-index-off", ["C16"], ("modules/sampler.py", "        index = (chunk.chnm - 1) // 2\n", "        index = chunk.chnm // 2\n"))
+M("c16-panning-bias-7f", ["C16", "C04"], ("modules/sampler.py", "        sample.panning = r.uint8() - 0x80", "        sample.panning = r.uint8() - 0x7F"))
+M("c16-sample-slot-shift-both-sides", ["C16", "C03"], ("modules/sampler.py", "        index = (chunk.chnm - 1) // 2\n", "        index = (chunk.chnm - 3) // 2\n"),
+  ("modules/sampler.py", "        index = (chunk.chnm - 2) // 2\n", "        index = (chunk.chnm - 4) // 2\n"),
+  ("modules/sampler.py", '        yield b"CHNM", pack("<I", i * 2 + 1)', '        yield b"CHNM", pack("<I", i * 2 + 3)'),
+  ("modules/sampler.py", '        yield b"CHNM", pack("<I", i * 2 + 2)', '        yield b"CHNM", pack("<I", i * 2 + 4)'))
 M("c16-loop-sustain-dropped", ["C16", "C03"], ("modules/sampler.py", "        sustain_flag = 4 if sample.loop_sustain else 0", "        sustain_flag = 0"))
 
 # ---------------------------------------------------------------- C17
